@@ -40,6 +40,11 @@ use rs_matter::tlv::TLVElement;
 use rs_matter::transport::session::Sessions;
 use rs_matter::Matter;
 
+#[path = "c12_wire.rs"]
+mod wire;
+#[path = "c12_icd.rs"]
+mod icd;
+
 const MASK: u64 = 0x0fff_ffff;
 const U32M: u64 = 1 << 32;
 
@@ -52,6 +57,11 @@ struct MemKv {
     log: Vec<(u16, Vec<u8>)>,
     /// power loss right after the next `store` has become durable
     die_after_store: bool,
+    /// power loss right before the next `store` becomes durable (nothing is written)
+    die_before_store: bool,
+    /// the next `store`s fail with an error (nothing is written; no power loss) -- store failures are
+    /// outside C12's quantifier, this only serves the documented observation replay
+    fail_store: bool,
 }
 
 impl KvBlobStore for MemKv {
@@ -62,6 +72,13 @@ impl KvBlobStore for MemKv {
         }))
     }
     fn store(&mut self, key: u16, data: &[u8], _buf: &mut [u8]) -> Result<(), Error> {
+        if self.fail_store {
+            return Err(rs_matter::error::ErrorCode::StdIoError.into());
+        }
+        if self.die_before_store {
+            self.die_before_store = false;
+            panic!("power loss");
+        }
         self.map.insert(key, data.to_vec());
         self.log.push((key, data.to_vec()));
         if self.die_after_store {
@@ -528,6 +545,8 @@ fn run_case(out: &mut Out, case: &Case) {
     match words.first().copied().unwrap_or("") {
         "g" => run_g(out, case, &words, false),
         "G" => run_g(out, case, &words, true),
+        "W" => wire::run_w(out, case, &words),
+        "C" => icd::run_c(out, case, &words),
         "e" => run_e(out, case, &words),
         "k" => run_k(out, case, &words),
         "i" => run_i(out, case, &words),
@@ -600,6 +619,100 @@ fn gen_g(r: &mut Rng, out: &mut Out, sends: u64) -> Vec<String> {
     while ready > 0 {
         ops.push(format!("use {}", r.below(ready)));
         ready -= 1;
+    }
+    ops
+}
+
+/// `W`: the real group transmit path. Power losses before / after the store inside `initiate_group`,
+/// between open and send, after sends; several exchanges waiting, sent in any order; sometimes more
+/// waiting exchanges than a session has slots (`initiate_group` then fails after its store).
+fn gen_w(r: &mut Rng, out: &mut Out, sends: u64) -> Vec<String> {
+    let mut ops: Vec<String> = Vec::new();
+    let p_crash = *r.pick(&[0u64, 3, 8, 20]);
+    let p_defer = *r.pick(&[0u64, 15, 50]);
+    let mut waiting = 0u64; // generator's estimate, only used to pick indices
+    for _ in 0..sends {
+        if r.chance(p_crash, 100) {
+            out.stat("w_gen_crash_between", 1);
+            ops.push("crash".into());
+            waiting = 0;
+        }
+        if r.chance(p_crash, 100) {
+            let how = if r.chance(1, 2) { "a" } else { "b" };
+            ops.push(format!("opencrash {} {}", how, gen_g_rand(r)));
+            waiting = 0;
+            continue;
+        }
+        ops.push(format!("open {}", gen_g_rand(r)));
+        if waiting < 5 {
+            waiting += 1;
+        }
+        if r.chance(p_defer, 100) {
+            out.stat("w_gen_send_deferred", 1);
+            continue;
+        }
+        while waiting > 0 {
+            ops.push(format!("send {}", r.below(waiting)));
+            waiting -= 1;
+            if r.chance(p_crash, 200) {
+                ops.push("crash".into());
+                waiting = 0;
+            }
+            if r.chance(1, 3) {
+                break;
+            }
+        }
+    }
+    while waiting > 0 {
+        ops.push(format!("send {}", r.below(waiting)));
+        waiting -= 1;
+    }
+    ops
+}
+
+/// `W`, slots full at an epoch crossing: all `MAX_EXCHANGES` group exchanges stay open (never
+/// dropped) while reservations go on -- each further `initiate_group` consumes a value and fails
+/// with `NoSpaceExchanges` AFTER its store -- until the reservation that crosses the stored boundary
+/// happens with no free slot; then send, open and send again, restart within the epoch, send again.
+fn gen_w_full(r: &mut Rng, out: &mut Out) -> Vec<String> {
+    let mut ops: Vec<String> = Vec::new();
+    let slots = 5u64;
+    for _ in 0..slots {
+        ops.push("open 0".into());
+    }
+    // the first reservation after a start crosses the boundary; the next crossing is the 1001st
+    // (1000th across the wrap); go a little short of / beyond it
+    let target = 1000 + r.below(4);
+    let mut reserved = slots;
+    while reserved < target {
+        if r.chance(1, 60) {
+            // free one slot and take it again: the slots are full again at the next reservation
+            ops.push(format!("send {}", r.below(slots)));
+            ops.push("open 0".into());
+            reserved += 1;
+        } else {
+            ops.push("open 0".into());
+            reserved += 1;
+        }
+    }
+    out.stat("w_gen_full_at_crossing", 1);
+    let mut waiting = slots;
+    for _ in 0..r.range(1, 4) {
+        ops.push(format!("send {}", r.below(waiting)));
+        waiting -= 1;
+        if r.chance(2, 3) {
+            ops.push("open 0".into());
+            waiting += 1;
+        }
+    }
+    if r.chance(1, 2) {
+        ops.push("crash".into());
+    } else {
+        ops.push(format!("opencrash {} 0", if r.chance(1, 2) { "a" } else { "b" }));
+    }
+    for _ in 0..r.range(1, 5) {
+        ops.push("open 0".into());
+        ops.push("send 0".into());
     }
     ops
 }
@@ -719,10 +832,79 @@ fn gen_k(r: &mut Rng, out: &mut Out, icd: bool, well: bool, len: u64, epoch: u64
     ops
 }
 
+/// `C`: the real `Icd::send_check_in`; `well` = the application obeys the interface (persist after
+/// every (re)start and after a jump that moved the boundary)
+fn gen_c(r: &mut Rng, out: &mut Out, well: bool, len: u64, epoch: u64) -> Vec<String> {
+    let mut ops: Vec<String> = Vec::new();
+    let mut pending = true;
+    let mut spent: u64 = 0;
+    let big_ok = epoch < (1 << 20);
+    for _ in 0..len {
+        match r.below(100) {
+            0..=7 => {
+                out.stat("c_gen_boot", 1);
+                ops.push(format!("boot {}", gen_k_start(r, epoch)));
+                pending = true;
+                spent += epoch;
+            }
+            8..=17 => {
+                if pending || r.chance(1, 6) {
+                    ops.push("persist".into());
+                    pending = false;
+                }
+            }
+            18..=74 => {
+                if well && pending {
+                    ops.push("persist".into());
+                    pending = false;
+                }
+                if !well && pending {
+                    out.stat("c_gen_checkin_disobeying", 1);
+                }
+                ops.push("checkin".into());
+                spent += 1;
+            }
+            75..=86 => {
+                if well && pending {
+                    ops.push("persist".into());
+                }
+                let how = if r.chance(1, 2) { "a" } else { "b" };
+                ops.push(format!("checkincrash {} {}", how, gen_k_start(r, epoch)));
+                pending = true;
+                spent += 1 + epoch;
+            }
+            _ => {
+                let d = match r.below(6) {
+                    0 => 0,
+                    1 => r.range(1, epoch.min(50)),
+                    2 => epoch,
+                    3 => epoch + r.below(3),
+                    4 if big_ok && spent < (1 << 30) => *r.pick(&[(U32M - 1) / 2, 1 << 31, 1 << 30]),
+                    _ => r.below(5000),
+                };
+                let d = d.min(U32M - 1);
+                if well && spent + d + 4 * epoch >= U32M - 1 {
+                    continue;
+                }
+                out.stat("c_gen_jump", 1);
+                ops.push(format!("jump {}", d));
+                spent += d;
+                if well || r.chance(1, 2) {
+                    ops.push("persist".into());
+                    pending = false;
+                } else {
+                    pending = true;
+                }
+            }
+        }
+    }
+    ops
+}
+
 pub fn gen(a: &Args) -> String {
     let mut r = Rng::new(a.seed);
     let mut out = Out::default();
-    out.buf.push_str("#rule one case = one lifetime of a device's storage: a start boundary (absent, 0, 1, next to the wrap-around of the counter range, or uniform) and a history of reservations / stores / uses with power losses placed before or after every individual store; streams g (group data counter through the real Sessions + initiate_group's caller protocol; plus all g histories of length 6 (quick) / 7 (thorough) over {reserve, store, stash, use, crash} from start values at the wrap), e (Events::push with a recording KV store), k (CheckInCounter, harness = application), i (Icd storage wrappers); non-trivial = at least one power loss, at least two values used and at least one store in the case (cases not reaching that are still counted when they produced two different outputs); distinct = by start boundary + operation list\n");
+    out.buf.push_str("#rule one case = one lifetime of a device's storage: a start boundary (absent, 0, 1, next to the wrap-around of the counter range, or uniform) and a history of reservations / stores / uses with power losses placed before or after every individual store; streams W (the real group transmit path: a real Matter re-hydrated by Matter::startup from a recording / crash-injecting KV store, Exchange::initiate_group + group_invoke_with, the counter read from the datagram handed to the network; plus all W histories of length 4 (quick) / 6 (thorough) over {open, send, power loss before / after the store inside initiate_group, power loss}), g (group data counter through the real Sessions + initiate_group's caller protocol; plus all g histories of length 6 (quick) / 7 (thorough) over {reserve, store, stash, use, crash} from start values at the wrap), e (Events::push with a recording KV store), C (the real Icd::send_check_in on a real Matter, the harness answering the mDNS resolve; the counter decrypted from the Check-In datagram handed to the network; power loss before / after the store of advance_counter), k (CheckInCounter, harness = application), i (Icd storage wrappers); non-trivial = at least one power loss, at least two values used and at least one store in the case (cases not reaching that are still counted when they produced two different outputs); distinct = by start boundary + operation list\n");
     // all `g` histories of a fixed length over the caller's alphabet, from start values at the wrap
     // (shorter histories are prefixes of these)
     let alphabet = ["reserve 0", "store", "stash", "use 0", "crash"];
@@ -744,6 +926,58 @@ pub fn gen(a: &Args) -> String {
             run_case(&mut out, &Case { id: exh_id, kind: format!("g {}", d0_str(*d0)), ops });
             exh_id += 1;
         }
+    }
+    // the same for the REAL transmit path (`W`): all histories of a fixed length over
+    // {open, send, power loss before / after the store inside initiate_group, power loss}
+    let w_alphabet = ["open 0", "send 0", "opencrash b 0", "opencrash a 0", "crash"];
+    let (w_len, w_starts): (u32, &[Option<u64>]) = if a.thorough {
+        (6, &[Some(MASK), Some(MASK - 999), Some(MASK - 1), Some(0), None])
+    } else {
+        (4, &[Some(MASK), Some(MASK - 999), Some(0), None])
+    };
+    let mut w_id: u64 = 2_000_000;
+    for d0 in w_starts {
+        for code in 0..(w_alphabet.len() as u64).pow(w_len) {
+            let mut c = code;
+            let mut ops: Vec<String> = Vec::with_capacity(w_len as usize);
+            for _ in 0..w_len {
+                ops.push(w_alphabet[(c % w_alphabet.len() as u64) as usize].to_string());
+                c /= w_alphabet.len() as u64;
+            }
+            out.stat("kind_W_exhaustive", 1);
+            run_case(&mut out, &Case { id: w_id, kind: format!("W {}", d0_str(*d0)), ops });
+            w_id += 1;
+        }
+    }
+    let n_w: u64 = if a.thorough { 4000 } else { 300 };
+    for _ in 0..n_w {
+        let mut cr = r.fork();
+        let d0 = gen_g_d0(&mut cr, &mut out);
+        let sends = match cr.below(100) {
+            0..=59 => cr.range(1, 12),
+            60..=91 => cr.range(12, 60),
+            _ => cr.range(900, 1200),
+        };
+        out.stat("kind_W", 1);
+        // one in ten: the slots-full-at-an-epoch-crossing shape
+        let ops = if cr.chance(1, 10) { gen_w_full(&mut cr, &mut out) } else { gen_w(&mut cr, &mut out, sends) };
+        run_case(&mut out, &Case { id: w_id, kind: format!("W {}", d0_str(d0)), ops });
+        w_id += 1;
+    }
+    // the real `Icd::send_check_in` (`C`)
+    let n_c: u64 = if a.thorough { 4000 } else { 300 };
+    for _ in 0..n_c {
+        let mut cr = r.fork();
+        let epoch = gen_k_epoch(&mut cr);
+        let d0 = if cr.chance(1, 6) { None } else { Some(gen_k_start(&mut cr, epoch)) };
+        let init = gen_k_start(&mut cr, epoch);
+        let well = cr.chance(4, 5);
+        let len = if cr.chance(1, 12) { cr.range(200, 900) } else { cr.range(3, 50) };
+        out.stat("kind_C", 1);
+        out.stat(if well { "c_wellbehaved_cases" } else { "c_disobeying_cases" }, 1);
+        let ops = gen_c(&mut cr, &mut out, well, len, epoch);
+        run_case(&mut out, &Case { id: w_id, kind: format!("C {} {} {}", d0_str(d0), epoch, init), ops });
+        w_id += 1;
     }
     let n_cases: u64 = if a.thorough { 60000 } else { 3000 };
     let mut e_budget: u64 = if a.thorough { 60_000_000 } else { 2_500_000 };
